@@ -133,7 +133,13 @@ FindMethodIn(cls, name, fuel) ==
            found == SelectSeq([j \in 1..Len(sup) |-> FindMethodIn(ClassNamed(sup[j]), name, fuel - 1)], LAMBDA x : x # 0)
        IN IF found = << >> THEN 0 ELSE found[1]
 FindMethod(cls, name) == FindMethodIn(cls, name, 6)
-CtorOf(cls) == FindMethod(cls, "__init__")
+(* constructors: __init__ (python), constructor (javascript / typescript), __construct (php), or a method named like the class (java) *)
+CtorNames == {"__init__", "constructor", "__construct"}
+CtorOf(cls) == IF FindMethod(cls, "__init__") # 0 THEN FindMethod(cls, "__init__")
+               ELSE IF FindMethod(cls, "constructor") # 0 THEN FindMethod(cls, "constructor")
+               ELSE IF FindMethod(cls, "__construct") # 0 THEN FindMethod(cls, "__construct")
+               ELSE FindMethod(cls, RowOf(cls).name)
+IsCtor(m) == RowOf(m).name \in CtorNames
 Params(m) == LET r == RowOf(m) IN IF r.parameters = 0 THEN << >>
              ELSE SelectSeq(Children(r.parameters), LAMBDA p : p.op = "parameter_decl")
 
@@ -251,7 +257,7 @@ DoReturn(v) ==
 
 PopFrame == /\ Len(Kont) > 1 /\ AtEnd /\ GoK(SubSeq(Kont, 1, Len(Kont) - 1), envs, heap, out)
 FallOff  == /\ Len(Kont) = 1 /\ AtEnd
-            /\ DoReturn(IF Act.self.t = "ref" /\ RowOf(Act.m).name = "__init__" THEN Act.self ELSE VNone)
+            /\ DoReturn(IF Act.self.t = "ref" /\ IsCtor(Act.m) THEN Act.self ELSE VNone)
 
 (* ---- expressions ---- *)
 RECURSIVE RepStr(_, _)
@@ -428,7 +434,7 @@ Receiver(tok) == LET v == Val(tok) IN IF v.t = "cls" THEN ClassRef(v.i) ELSE v
 ObjectCall == /\ Cur.op = "object_call_stmt"
               /\ LET r == Receiver(Cur.receiver_object_tok) IN
                  IF r.t # "ref" THEN Fail("receiver_" \o ToString(Cur.id))
-                 ELSE IF heap[r.i].kind = "array" /\ Cur.field = "append"
+                 ELSE IF heap[r.i].kind = "array" /\ Cur.field \in {"append", "push"}
                  THEN GoK(AdvK(Kont), envs, [heap EXCEPT ![r.i].elems = Append(@, Val(Cur.pos_toks[1]))], out)
                  ELSE LET f == FieldOf(r, Cur.field) IN
                       IF f.t = "undef" THEN Fail("no_such_member_" \o Cur.field)
@@ -438,6 +444,12 @@ ObjectCall == /\ Cur.op = "object_call_stmt"
 NewArray == /\ Cur.op = "new_array"
             /\ LET hp2 == Append(heap, Obj(IF Cur.is_tuple THEN "tuple" ELSE "array", 0, Cur.id)) IN
                GoKD(AdvK(Kont), SetVar(envs, Act.ser, Cur.target, VRef(Len(hp2))), hp2, out, Def(Cur.id, Cur.target, VRef(Len(hp2)), hp2))
+(* new_object: an instance of the class named by data_type (its constructor runs with the positional arguments), or a generic object *)
+NewObject == /\ Cur.op = "new_object"
+             /\ IF ClassNamed(Cur.data_type) # 0
+                THEN CallValue(VCls(ClassNamed(Cur.data_type)), Cur.pos_toks, Cur.named_toks, Cur.target)
+                ELSE LET hp2 == Append(heap, Obj("object", 0, Cur.id)) IN
+                     GoKD(AdvK(Kont), SetVar(envs, Act.ser, Cur.target, VRef(Len(hp2))), hp2, out, Def(Cur.id, Cur.target, VRef(Len(hp2)), hp2))
 NewRecord == /\ Cur.op = "new_record"
              /\ LET hp2 == Append(heap, Obj("record", 0, Cur.id)) IN
                 GoKD(AdvK(Kont), SetVar(envs, Act.ser, Cur.target, VRef(Len(hp2))), hp2, out, Def(Cur.id, Cur.target, VRef(Len(hp2)), hp2))
@@ -458,7 +470,9 @@ ArrayWrite ==
 ArrayRead ==
   /\ Cur.op = "array_read"
   /\ LET a == Val(Cur.array_tok)  ix == Val(Cur.index_tok) IN
-     IF a.t = "ref" /\ heap[a.i].kind = "record"
+     IF a.t = "ref" /\ heap[a.i].kind = "object" /\ ix.t = "str"          \* o["k"] on a generic object
+     THEN (IF ix.s \in DOMAIN heap[a.i].fields THEN Define(Cur.target, heap[a.i].fields[ix.s]) ELSE Fail("key_" \o ToString(Cur.id)))
+     ELSE IF a.t = "ref" /\ heap[a.i].kind = "record"
      THEN (IF KeyOf(ix) \in DOMAIN heap[a.i].fields
            THEN Define(Cur.target, heap[a.i].fields[KeyOf(ix)]) ELSE Fail("key_" \o ToString(Cur.id)))
      ELSE IF a.t = "ref" /\ IsNum(ix)
@@ -473,6 +487,7 @@ RecordWrite ==
      IF a.t # "ref" \/ v.t = "undef" THEN Fail("record_write_" \o ToString(Cur.id))
      ELSE GoK(AdvK(Kont), envs, [heap EXCEPT ![a.i].fields = (KeyOf(k) :> v) @@ @], out)
 
+PropKey(tok, raw) == IF tok.k = "str" THEN tok.s ELSE raw            \* a quoted field name is the property of that name
 FieldWrite ==
   /\ Cur.op = "field_write"
   /\ LET r == Receiver(Cur.receiver_object_tok)  v == Val(Cur.source_tok) IN
@@ -480,23 +495,23 @@ FieldWrite ==
      \* a numeric field of an array addresses an element (array literals of the JavaScript and PHP frontends)
      ELSE IF heap[r.i].kind \in {"array", "tuple"} /\ Cur.field_tok.k = "int" /\ Cur.field_tok.i >= 0 /\ Cur.field_tok.i <= Len(heap[r.i].elems)
      THEN GoK(AdvK(Kont), envs, [heap EXCEPT ![r.i].elems = SetElem(@, Cur.field_tok.i, v)], out)
-     ELSE LET hp2 == [heap EXCEPT ![r.i].fields = (Cur.field :> v) @@ @] IN
+     ELSE LET hp2 == [heap EXCEPT ![r.i].fields = (PropKey(Cur.field_tok, Cur.field) :> v) @@ @] IN
           GoKD(AdvK(Kont), envs, hp2, out, IF Cur.receiver_object_tok.k = "var" THEN Def(Cur.id, Cur.receiver_object, r, hp2) ELSE {})
 FieldRead ==
   /\ Cur.op = "field_read"
   /\ LET r == Receiver(Cur.receiver_object_tok) IN
      IF r.t # "ref" THEN Fail("field_read_" \o ToString(Cur.id))
-     ELSE LET v == FieldOf(r, Cur.field) IN
+     ELSE LET v == FieldOf(r, PropKey(Cur.field_tok, Cur.field)) IN
           IF v.t = "undef" THEN Fail("no_such_field_" \o Cur.field) ELSE Define(Cur.target, v)
 
 Known == {"assign_stmt", "variable_decl", "global_stmt", "nonlocal_stmt", "pass_stmt", "parameter_decl", "import_stmt", "from_import_stmt",
           "method_decl", "class_decl", "if_stmt", "while_stmt", "for_stmt", "forin_stmt", "for_value_stmt", "break_stmt", "continue_stmt", "return_stmt",
-          "call_stmt", "object_call_stmt", "new_array", "new_record", "array_write", "array_read", "record_write", "field_write", "field_read"}
+          "call_stmt", "object_call_stmt", "new_array", "new_record", "new_object", "array_write", "array_read", "record_write", "field_write", "field_read"}
 Unknown == /\ Cur.op \notin Known /\ Fail("unknown_operation_" \o Cur.op)
 
 Step == /\ stack # << >> /\ ~AtEnd
         /\ (Assign \/ Decl \/ MethodDecl \/ ClassDeclNested \/ If \/ While \/ For \/ ForIn \/ Break \/ Continue \/ Return \/ Call \/ ObjectCall
-            \/ NewArray \/ NewRecord \/ ArrayWrite \/ ArrayRead \/ RecordWrite \/ FieldWrite \/ FieldRead \/ Unknown)
+            \/ NewArray \/ NewRecord \/ NewObject \/ ArrayWrite \/ ArrayRead \/ RecordWrite \/ FieldWrite \/ FieldRead \/ Unknown)
 
 Next == /\ status = "run" /\ steps < MaxSteps
         /\ IF stack = << >> THEN Start ELSE (Step \/ (PopFrame) \/ (FallOff))
